@@ -301,3 +301,62 @@ def gen_world(rng, tier):
         else:
             lines.append(f'op process {rng.choice(DTS)}')
     return lines
+
+
+def gen_supervisor(rng, tier):
+    """C08/C09: supervisor coroutines - bodies whose steps call the processor API re-entrantly on
+    OTHER coroutines of the same processor (kill / start / restart / state of sleeping, running,
+    finished and kill-pending ones) and then yield a positive wait, a bare yield, return or raise;
+    enough frames follow for every wait to elapse, so a coroutine that is lost or woken at the wrong
+    time shows."""
+    workers = rng.randint(2, 4)
+    sup = rng.randint(1, 2)
+    n = workers + sup
+    waits = [4, 8, 12, 16, 24]
+    lines = []
+    for g in range(workers):
+        kind = rng.random()
+        if kind < 0.6:          # sleeper
+            steps = [f'yield {rng.choice(waits)}', f'yield {rng.choice(["N", "N", "4", "8"])}',
+                     f'yield {rng.choice(waits)}', 'yield N']
+        elif kind < 0.85:       # ticker
+            steps = ['yield N'] * rng.randint(3, 8)
+        else:                   # finishes quickly
+            steps = ['yield N'] * rng.randint(0, 1)
+        lines.append(f'gen {g} : ' + ' | '.join(steps + [f'ret {rng.choice(["N", "1", "7"])}']))
+    for g in range(workers, n):
+        steps = []
+        for _ in range(rng.randint(2, 6)):
+            acts = []
+            for _ in range(rng.randint(1, 3)):
+                h = rng.randrange(n) if rng.random() < 0.9 else g
+                a = rng.choice(['kill', 'kill', 'kill', 'start', 'state'])
+                acts.append(f'{a} {h}')
+                if a == 'kill' and rng.random() < 0.35:
+                    acts.append(f'start {h}')                  # pause / resume
+            r = rng.random()
+            if r < 0.5:
+                end = f'yield {rng.choice(waits)}'
+            elif r < 0.9:
+                end = f'yield {rng.choice(["N", "N", "0"])}'
+            else:
+                end = f'raise {rng.choice(EXCS)}'
+            steps.append(' ; '.join(acts + [end]))
+        lines.append(f'gen {g} : ' + ' | '.join(steps + [f'state {rng.randrange(n)} ; ret N']))
+    order = list(range(n))
+    rng.shuffle(order)
+    for g in order:
+        lines.append(f'op start {g}')
+    elapsed = 0
+    while elapsed < 80:
+        d = rng.choice([1, 2, 4, 4, 8])
+        lines.append(f'op process {d}')
+        elapsed += d
+        r = rng.random()
+        if r < 0.06:
+            lines.append(f'op start {rng.randrange(n)}')
+        elif r < 0.10:
+            lines.append(f'op kill {rng.randrange(workers)}')
+    for g in range(n):
+        lines.append(f'op value {g}')
+    return lines
